@@ -296,8 +296,8 @@ Definition api_step (fx : fixes) (d : dcore) (r : rest) (t : thread) : rest * th
          per target state: index out of range in the mutating goroutine
          (queueProcessing stays set); while only disposing the transition is
          built but not accepted: no tx:applied, no tx:subs *)
-      if d2 then (r, finish t (if fx_tx_guard fx then keep t RCanceled else RPanic))
-      else if d1 then (r, {| th_kind := th_kind t; th_pc := PALoop; th_res := keep t RCanceled |})
+      if d2 && negb (fx_tx_guard fx) then (r, finish t RPanic)
+      else if d2 || d1 then (r, {| th_kind := th_kind t; th_pc := PALoop; th_res := keep t RCanceled |})
       else (r, goto t PAApplied)
     end
   | PAApplied =>
